@@ -189,10 +189,32 @@ pub fn run_scenario(scn: &Scn, seen: &mut Seen) -> Outcome {
     let mut clients: Vec<Client> = std::mem::take(&mut *open.lock().unwrap());
 
     // ---- quiescent point of the running server: nothing silently discarded
-    match run.barrier(false) {
-        Ok(snap) => {
+    // Clients that finish by themselves (mode 'F') keep freeing slots, so the backlog drains in a chain of
+    // release -> notification -> accept steps. A cut is a quiescent point only when nothing was dispatched between two
+    // successive barriers; a candidate "unserved although capacity is free" must persist across such a pair.
+    let mut quiescent: Result<(actix_server::verif::Snapshot, usize), Waited> = run.barrier_at(false);
+    let mut prev_dispatches = u64::MAX;
+    for _ in 0..400 {
+        match &quiescent {
+            Ok((_, cut)) => {
+                let mut log = verif::log_since(0);
+                log.truncate(*cut + 1);
+                let (c, _) = monitor::shadow(&log, scn.limit, false);
+                if c.dispatch_total == prev_dispatches {
+                    break;
+                }
+                prev_dispatches = c.dispatch_total;
+                thread::sleep(Duration::from_millis(1));
+                quiescent = run.barrier_at(false);
+            }
+            Err(_) => break,
+        }
+    }
+    match quiescent {
+        Ok((snap, cut)) => {
             seen.quiescent_points += 1;
-            let log = verif::log_since(0);
+            let mut log = verif::log_since(0);
+            log.truncate(cut + 1);
             let (c, _) = monitor::shadow(&log, scn.limit, false);
             let accepted: u64 = c.accepted.values().sum();
             let dispatched_ok = c.dispatch_total - c.dispatch_failed;
@@ -253,7 +275,7 @@ pub fn run_scenario(scn: &Scn, seen: &mut Seen) -> Outcome {
             if unserved_open > 0 && spare > 0 && pending > 0 {
                 fails.push(fail(
                     "C01:unserved-with-spare-capacity",
-                    format!("quiescent point: {unserved_open} open client(s) unserved, {pending} in backlogs, {spare} free slots on live workers"),
+                    format!("quiescent point: {unserved_open} open client(s) unserved, {pending} in backlogs, {spare} free slots on live workers; in-flight {:?}; snapshot avail {:?} counters {:?}; last events {:?}", c.in_flight, snap.avail.iter().take(scn.workers).collect::<Vec<_>>(), snap.counters, monitor::tail(&log, 16)),
                 ));
             }
             if unserved_open as i64 > pending {
